@@ -348,6 +348,9 @@ func c07(c *core.Ctx) {
 	// single-request methods the server looks for a second frame where the messages come from (C08/R3).
 	c.Borrow("C01", map[string]string{"R3": "R5"}, c01)
 	c.Borrow("C08", map[string]string{"R3": "R6"}, c08)
+	// "no panic" on the receive path: the explicit sanity panics of the HTTP client's RecvMsg are discharged, and
+	// nothing offered to a sync/atomic.Value can make it panic (C05/R5)
+	c.Borrow("C05", map[string]string{"R5": "R7"}, c05)
 }
 
 func constInt64(cst *types.Const) (int64, bool) {
